@@ -59,6 +59,13 @@ def sources(ctx, prop):
                         ctx.sample(rule, construct, '%s: %s' % (full, why))
                     else:
                         ctx.violation(rule, construct, 'call %s' % full, '%s uses %s: result depends on the run, not on the program' % (f.qualname, full), where=where)
+                # a private generator seeded from the OS: random.Random() / SystemRandom / default_rng() without a seed
+                if (full in ('random.Random', 'random.SystemRandom', 'numpy.random.default_rng', 'np.random.default_rng', 'random.seed')
+                        or (root == 'random' and nm in ('Random', 'SystemRandom'))) and (nm == 'SystemRandom' or not node.args):
+                    n += 1
+                    ctx.ob(rule, False)
+                    ctx.violation(rule, construct, 'call %s()' % full,
+                                  '%s draws from a generator seeded by the operating system (%s without a seed): the program\'s random.seed() no longer determines the run' % (f.qualname, full), where=where)
                 # iteration-order of a set passed to an order-sensitive constructor
                 if nm in ('list', 'tuple', 'sorted', 'enumerate', 'iter', 'next') and node.args:
                     a = node.args[0]
